@@ -119,6 +119,8 @@ def gen_program(rng, profile="general", payload=None, cap="rand"):
         return gen_waiters(rng)
     if profile == "trystate":
         return gen_trystate(rng)
+    if profile == "spincond":
+        return gen_spincond(rng)
     if profile == "mutex":
         return gen_mutex(rng)
     if profile == "mutexfreeze":
@@ -868,6 +870,52 @@ def gen_pair(rng):
     return {"cap": cap, "payload": rng.choice(["w1", "b3", "h4", "u8", "p5"]), "procs": procs, "strat": st}
 
 
+def gen_spincond(rng):
+    """C17: the back-off loop spin_cond driven with a scripted condition (false K times, then true), reported parallelism 1 and 16;
+    K reaches several million so that the geometric back-off goes through more than 20 doublings."""
+    if rng.random() < 0.3:
+        par = 1
+        ks = [rng.choice([0, 1, 2, 3, 5, 17, 100, 250]) for _ in range(rng.choice([1, 2, 3]))]
+    else:
+        par = 16
+        pool = [0, 1, 2, 3, 4, 5, 11, 12, 13, 27, 28, 29, 75, 76, 77, 171, 172, 173, 1000, 6123, 6124, 6125, 100000, 1572859, 1572860, 1572861,
+                2000000, 3145725, 3145726, 3145727, 3145728, 4000000, 6291452, 6291453, 7000001, 12582908, 13000000, 26000000]
+        ks = [rng.choice(pool) if rng.random() < 0.8 else rng.randrange(0, 30000000) for _ in range(rng.choice([1, 2, 3]))]
+    return {"mutex": True, "execs": 1, "procs": [{"phase": 0, "ops": [{"op": "spin_cond", "K": k} for k in ks]}],
+            "strat": {"parallelism": par, "max_steps": 20000}}
+
+
+def gen_lockhold(rng, combo=None):
+    """C13 (and the lock discipline of every blocking call): a timed operation is waiting, its deadline expires in the race
+    phase, and exactly then a third party is somewhere inside an unrelated call on the same channel -- possibly inside its
+    critical section, holding the channel lock (solo freeze sweep over the third party; lock attempts that fail are executed)."""
+    timed = combo[0] if combo else rng.choice(["send_timeout", "send_option_timeout", "recv_timeout"])
+    third = combo[1] if combo else rng.choice(["len", "is_full", "clone", "try_send", "try_recv", "sender_count", "drop_spare", "is_closed"])
+    cap = rng.choice([0, 1])
+    side = "r" if timed == "recv_timeout" else "s"
+    procs = []
+    pre = [{"op": "try_send", "h": 0, "m": 100 + j} for j in range(cap)] if side == "s" else []
+    w = {"op": timed, "h": 0, "d": 2}
+    if side == "s":
+        w["m"] = 1
+    # the waiter also holds a handle of the other side, so that the channel stays connected whatever the third party drops
+    procs.append({"phase": 0, "handles": [rng.choice(["s", "a"]) + side, "sr" if side == "s" else "ss"], "ops": pre + [w, {"op": "len", "h": 0}]})
+    b = [{"op": "barrier", "ph": 1}]
+    hs = ["ss", "sr", "ss"]
+    t = {"len": [{"op": "len", "h": 0}], "is_full": [{"op": "is_full", "h": 1}], "clone": [{"op": "clone", "h": 1}],
+         "try_send": [{"op": "try_send", "h": 0, "m": 50}] if side == "s" else [{"op": "len", "h": 0}],
+         "try_recv": [{"op": "try_recv", "h": 1}] if side == "r" else [{"op": "len", "h": 1}],
+         "sender_count": [{"op": "sender_count", "h": 1}], "drop_spare": [{"op": "drop", "h": 2}], "is_closed": [{"op": "is_closed", "h": 0}]}[third]
+    procs.append({"phase": 0, "handles": hs, "ops": b + t + [{"op": "barrier", "ph": 2}]})
+    st = {"spin_bias": 0.995, "p_switch": 0.1, "q_tick": 0.0, "tick_phase": 1, "tick_after": 0, "lockspin_all": 1}
+    return {"cap": cap, "payload": rng.choice(["w1", "b3", "u8"]), "procs": procs, "strat": st}
+
+
+def lockhold_combos():
+    return [(t, o) for t in ("send_timeout", "send_option_timeout", "recv_timeout")
+            for o in ("len", "is_full", "clone", "try_send", "try_recv", "sender_count", "drop_spare", "is_closed")]
+
+
 def gen_mutex(rng, freeze=False):
     """C17: 2..4 threads contend on the raw lock through lock / try_lock / unlock with accesses to a monitored cell."""
     n = rng.choice([2, 3, 3, 4])
@@ -1050,6 +1098,41 @@ def gen_seq_futs(caps=(0, 1, 2), ks=(3, 4), flavs=("aa",)):
                                     {"op": "len", "h": 0}]
                             yield {"cap": cap, "payload": ["w1", "b3", "h4", "u8"][nvar % 4], "execs": 1,
                                    "procs": [{"phase": 0, "handles": [flav[0] + "s", flav[1] + "r"], "ops": ops}]}
+
+
+def gen_seq_hidden(caps=(2, 3), depth=3, flavs=("ss", "aa")):
+    """Single-threaded sequences aimed at the channel's *hidden* state (the lazily flipped recv_blocking flag, a buffer that
+    is neither empty nor full after traffic): a prefix of traffic (fill, partial receive, a served pending future, ...)
+    followed by every sequence of `depth` calls of one side over all its variants (timed calls with zero duration, futures
+    polled once), then an observing suffix."""
+    import itertools
+    SV = [[{"op": "try_send", "h": 0, "m": 0}], [{"op": "try_send_option", "h": 0, "m": 0}], [{"op": "try_send_realtime", "h": 0, "m": 0}],
+          [{"op": "send_timeout", "h": 0, "m": 0, "d": 0}], [{"op": "send_option_timeout", "h": 0, "m": 0, "d": 0}],
+          [{"op": "asend_new", "h": 0, "f": 0, "m": 0}, {"op": "poll", "f": 0, "w": 1}, {"op": "drop_fut", "f": 0}]]
+    RV = [[{"op": "try_recv", "h": 1}], [{"op": "try_recv_realtime", "h": 1}], [{"op": "recv_timeout", "h": 1, "d": 0}],
+          [{"op": "drain_into", "h": 1, "pre": 0, "spare": 0}],
+          [{"op": "arecv_new", "h": 1, "f": 1}, {"op": "poll", "f": 1, "w": 1}, {"op": "drop_fut", "f": 1}]]
+    S, R = [{"op": "try_send", "h": 0, "m": 0}], [{"op": "try_recv", "h": 1}]
+    PEND_R = [{"op": "arecv_new", "h": 1, "f": 2}, {"op": "poll", "f": 2, "w": 1}]
+    PEND_S = [{"op": "asend_new", "h": 0, "f": 3, "m": 0}, {"op": "poll", "f": 3, "w": 1}]
+    n = 0
+    for cap in caps:
+        prefixes = {
+            "fill_recv1": [S] * cap + [R],                                  # receive leaves the buffer non-empty, nobody parked
+            "fill_recvall": [S] * cap + [R] * cap,
+            "recv_on_empty_then_fill": [R, S],
+            "pending_recv_served": [PEND_R, S, [{"op": "poll", "f": 2, "w": 1}, {"op": "drop_fut", "f": 2}], S],
+            "pending_send_served": [S] * cap + [PEND_S, R, [{"op": "poll", "f": 3, "w": 1}, {"op": "drop_fut", "f": 3}]],
+            "pending_recv_cancelled": [PEND_R, [{"op": "drop_fut", "f": 2}], S],
+            "pending_send_cancelled": [S] * cap + [PEND_S, [{"op": "drop_fut", "f": 3}], R],
+        }
+        for flav in flavs:
+            for pname, pre in prefixes.items():
+                for side, V in (("s", SV), ("r", RV)):
+                    for combo in itertools.product(range(len(V)), repeat=depth):
+                        items = [x if isinstance(x, list) else [x] for x in pre] + [V[i] for i in combo] + [[o] for o in OBS_SUFFIX]
+                        n += 1
+                        yield seq_program(items, cap, flav, ["w1", "b3", "u8"][n % 3])
 
 
 HANDLE_MUT = ["clone", "clone_sync", "clone_async", "to_sync", "to_async", "drop", "drop_old"]
